@@ -145,8 +145,10 @@ fn gen_id_feats(rng: &mut Rng, trailing: bool) -> String {
         // two columns, the second one empty: the row ends in a comma
         return format!("{a},");
     }
-    let b = match rng.below(4) {
+    let b = match rng.below(5) {
         0 => "*".to_string(),
+        // a value with a blank inside
+        1 if rng.chance(1, 2) => format!("proper s{}", rng.below(2)),
         _ => format!("s{}", rng.below(3)),
     };
     let c = match rng.below(4) {
@@ -227,6 +229,9 @@ impl Scenario for MecabScenario {
             "B9:%L?[1],%L?[2]/%R?[1],%R?[2]",
             "B9:%L[1],%L[2]/%R[1],%R[2]",
             "%L?[2],%L?[1]/B10:%R[0]",
+            // literal text with characters that other parsers give a meaning
+            "B11:%L[0]/R#1:%R[1]",
+            "B12:%L[1]/%R[0];y",
         ];
         let n_t = 1 + rng.usize(6);
         let mut idx: Vec<usize> = (0..pool.len()).collect();
@@ -576,7 +581,7 @@ impl Scenario for MecabScenario {
     fn describe(&self) -> ScenarioInfo {
         ScenarioInfo {
             level: "exploration",
-            rule: "one seeded run = a seeded MeCab model description (1-6 BIGRAM templates over %L[i], %R[i], %L?[i], %R?[i] and literal text; right-id.def/left-id.def with 2-8 dense ids, id 0 = BOS/EOS; model.def with positive, negative, zero, truncating-to-zero, unlisted, unmatched and slash-less lines plus header lines; cost factors 1-800), in 30% of the runs one of the statement's error worlds (gap among the ids, id 0 not BOS/EOS, malformed id line - must return Err). generate_bigram_info runs with short/EINTR readers and sinks; its three outputs are compiled with the raw connector and, for every pair of non-zero ids, the connection cost must equal the harness-side expansion of the model: sum over applicable templates of -trunc(w*factor) of the line 'Lexp/Rexp'; ids must be emitted densely ascending; a hard fault at a seeded offset of a sink must give Err (never Ok with a short file), a fired hard reader fault must give Err. Added later: id tables listed in shuffled order (1 in 4), rows ending in a comma (1 world in 8), cost factors up to 100000, two optional references on one side and a non-optional twin template expanding to the same text; sinks by &mut or owned BufWriter/LineWriter. distinct_nontrivial = distinct plan hashes of runs with >= 1 comparison",
+            rule: "one seeded run = a seeded MeCab model description (1-6 BIGRAM templates over %L[i], %R[i], %L?[i], %R?[i] and literal text; right-id.def/left-id.def with 2-8 dense ids, id 0 = BOS/EOS; model.def with positive, negative, zero, truncating-to-zero, unlisted, unmatched and slash-less lines plus header lines; cost factors 1-800), in 30% of the runs one of the statement's error worlds (gap among the ids, id 0 not BOS/EOS, malformed id line - must return Err). generate_bigram_info runs with short/EINTR readers and sinks; its three outputs are compiled with the raw connector and, for every pair of non-zero ids, the connection cost must equal the harness-side expansion of the model: sum over applicable templates of -trunc(w*factor) of the line 'Lexp/Rexp'; ids must be emitted densely ascending; a hard fault at a seeded offset of a sink must give Err (never Ok with a short file), a fired hard reader fault must give Err. Added later: id tables listed in shuffled order (1 in 4), rows ending in a comma (1 world in 8), cost factors up to 100000, two optional references on one side and a non-optional twin template expanding to the same text; sinks by &mut or owned BufWriter/LineWriter. Round 5: template literals containing '#' and ';', feature values with a blank inside. distinct_nontrivial = distinct plan hashes of runs with >= 1 comparison",
             assumptions: vec![
                 "template shapes are restricted to those the MeCab documentation defines unambiguously; feature values contain no '/'",
                 "a table without id 0 is outside the statement and not generated",
